@@ -34,7 +34,13 @@ impl Check for Upgrade {
     type Cfg = Cfg;
     type Step = Step;
     fn id(&self) -> &'static str { "upgrade" }
-    fn runs(&self, tier: Tier) -> u64 { if tier == Tier::Quick { 300 } else { 10_000 } }
+    fn runs(&self, tier: Tier) -> u64 {
+        if tier == Tier::Quick {
+            3000
+        } else {
+            30000
+        }
+    }
     fn components(&self) -> serde_json::Value { serde_json::json!({"real": ["derive(UpgradeableMigratable): generated migrate and (last step) upgrade", "upgradeable::storage flags"], "stub": ["sim_upgrade = generated upgrade minus executable swap", "uploaded testdata wasm only as the target hash of the final real upgrade"]}) }
     fn generate(&self, rng: &mut Rng, _tier: Tier) -> (Cfg, std::vec::Vec<Step>) {
         let mut steps = vec![];
